@@ -356,7 +356,9 @@ def run(ctx):
                 if stj == "ok":
                     one_step(info, d, s2, "derived:from_json")
             else:
-                one_step(info, rng.choice(docs), step, "reused:other-document")
+                other = rng.choice(docs)
+                if gen.step_aligned(other, step):
+                    one_step(info, other, step, "reused:other-document")
         # concurrent steps on d: some of the applied primitive ones and the first steps of a few high-level operations
         cands = rng.sample(applied, min(len(applied), 4))
         for _ in range(1):
